@@ -451,6 +451,18 @@ func adm_condText(e ast.Expr) string {
 		return adm_condText(x.X) + "[" + adm_condText(x.Index) + "]"
 	case *ast.StarExpr:
 		return "*" + adm_condText(x.X)
+	case *ast.CompositeLit:
+		var es []string
+		for _, e := range x.Elts {
+			es = append(es, adm_condText(e))
+		}
+		t := ""
+		if x.Type != nil {
+			t = adm_condText(x.Type)
+		}
+		return t + "{" + strings.Join(es, ", ") + "}"
+	case *ast.KeyValueExpr:
+		return adm_condText(x.Key) + ": " + adm_condText(x.Value)
 	}
 	return "?"
 }
